@@ -51,6 +51,7 @@ Section Tables.
   Variable t_newton : list (jacm float * list float * list float).
   Variable t_svdfail : list (jacm float).
   Variable t_bro : list ((jacm float * list float * list float * list float * list float) * jacm float).
+  Variable t_log : list (float * float).      (* numpy.log10: argument, result *)
 
   Fixpoint lookup {K V} (eq : K -> K -> bool) (k : K) (l : list (K * V)) : option V :=
     match l with
@@ -83,10 +84,13 @@ Section Tables.
     | None => [[nan]]
     end.
 
+  Definition log_tab (x : float) : float :=
+    match lookup feqb x t_log with Some y => y | None => nan end.
+
   Definition fenv : env :=
     mkEnv float 0%float 1%float 0.5%float PrimFloat.add PrimFloat.sub PrimFloat.mul PrimFloat.div
           PrimFloat.abs PrimFloat.ltb PrimFloat.leb c_tolj 10%float 100%float c_atol c_lo c_hi
-          f_tab pen_tab newton_tab bro_tab.
+          f_tab pen_tab newton_tab bro_tab log_tab.
   Definition m_run_op (c : fcfg) := run_op fenv c.
   Definition m_init (c : fcfg) := init fenv c.
 End Tables.
@@ -119,6 +123,16 @@ Definition obs_ok (prev : nat) (s : fstate) (o : obs) : bool :=
      does, the C15 oracle reports it and the rows are not compared) *)
   (o_ragged o || (Nat.eqb (length (log s)) (o_loglen o) && list_eqb row_eqb (skipn prev (log s)) (o_newrows o))).
 
+(* one step of a recorded history: a modelled operation, run with the
+   configuration current at that call (Some c = the user re-assigned attributes
+   of Target / Vary objects since the previous call), or a foreign call (any
+   other public entry point of Optimize: run_simplex, run_ls_trf, status tables,
+   views of the merit function ...), after which the model takes over the observed
+   state: nothing hidden may survive it *)
+Inductive tstep :=
+| TOp (c : option fcfg) (o : op) (clr : bool) (oc : outc) (ob : obs)   (* clr: clear_log, rows compared from 0 again *)
+| TForeign (ob : obs).
+
 Record tcase := mkCase {
   t_cfg : fcfg; t_k0 : list float; t_va0 : list bool;
   t_f : list (list float * option (list float));
@@ -126,29 +140,38 @@ Record tcase := mkCase {
   t_newton : list (jacm float * list float * list float);
   t_svdfail : list (jacm float);
   t_bro : list ((jacm float * list float * list float * list float * list float) * jacm float);
+  t_log : list (float * float);
   t_init : outc * option obs;
-  t_ops : list (op * bool * outc * obs) }.    (* bool: the op is clear_log (rows are compared from 0 again) *)
+  t_ops : list tstep }.
 
 Definition fuel := 1200.
 
-Fixpoint replay (c : tcase) (k : nat) (prev : nat) (s : fstate) (ops : list (op * bool * outc * obs)) : option nat :=
+(* after a foreign call: every field the implementation exposes is taken from the
+   observation (the Broyden memory is not touched by foreign calls) *)
+Definition resync (s : fstate) (o : obs) : fstate :=
+  mkState (o_knobs o) (o_va o) (o_ta o) (o_sx o) (o_mfl o) (o_lpwt o) (o_lres o) (o_ltw o)
+          (o_pen_after o) (o_alpha o) (bro s) (log s ++ o_newrows o) (o_ncall o).
+
+Fixpoint replay (c : tcase) (cf : fcfg) (k : nat) (prev : nat) (s : fstate) (ops : list tstep) : option nat :=
   match ops with
   | [] => None
-  | (o, clr, oc, ob) :: rest =>
+  | TForeign ob :: rest => replay c cf (S k) (o_loglen ob) (resync s ob) rest
+  | TOp nc o clr oc ob :: rest =>
+      let cf := match nc with Some c' => c' | None => cf end in
       let prev := if clr then 0 else prev in
-      match m_run_op (t_f c) (t_pen c) (t_newton c) (t_svdfail c) (t_bro c) (t_cfg c) fuel o s with
-      | Ok s' => if outc_eqb oc OOk && obs_ok prev s' ob then replay c (S k) (o_loglen ob) s' rest else Some k
-      | Err e s' => if outc_eqb oc (OErr e) && obs_ok prev s' ob then replay c (S k) (o_loglen ob) s' rest else Some k
+      match m_run_op (t_f c) (t_pen c) (t_newton c) (t_svdfail c) (t_bro c) (t_log c) cf fuel o s with
+      | Ok s' => if outc_eqb oc OOk && obs_ok prev s' ob then replay c cf (S k) (o_loglen ob) s' rest else Some k
+      | Err e s' => if outc_eqb oc (OErr e) && obs_ok prev s' ob then replay c cf (S k) (o_loglen ob) s' rest else Some k
       | Div => Some k
       end
   end.
 
 (* None = the model reproduces the run; Some k = first differing operation
-   (0 = the constructor, k+1 = operation k) *)
+   (0 = the constructor, k+1 = step k) *)
 Definition case_result (c : tcase) : option nat :=
-  match m_init (t_f c) (t_pen c) (t_newton c) (t_svdfail c) (t_bro c) (t_cfg c) (t_k0 c) (t_va0 c), t_init c with
+  match m_init (t_f c) (t_pen c) (t_newton c) (t_svdfail c) (t_bro c) (t_log c) (t_cfg c) (t_k0 c) (t_va0 c), t_init c with
   | Ok s, (OOk, Some ob) =>
-      if obs_ok 0 s ob then option_map S (replay c 0 (o_loglen ob) s (t_ops c)) else Some 0
+      if obs_ok 0 s ob then option_map S (replay c (t_cfg c) 0 (o_loglen ob) s (t_ops c)) else Some 0
   | Err e _, (OErr e', _) => if err_eqb e e' then None else Some 0
   | _, _ => Some 0
   end.
